@@ -71,7 +71,9 @@ RULE = ("E1: every document with <= n nodes (n=3 quick, 4 thorough; the C01 "
         "comma, anchors, numbers, non-ASCII digits), %d attributes x 17 "
         "operators x %d terms / %d regular expressions, and %d key names "
         "that are literal syntax in Python/YAML ({}, [1, 2], 1e999, 1j, "
-        "None, ...) over 75 documents; entry points: "
+        "None, ...) over 75 documents; every raw string of <= 3 symbols over "
+        "the 29 significant ones and of 4 (thorough 5) over 19 that the "
+        "parser accepts, evaluated on two documents; entry points: "
         "required query for every pair, exists() and the optional query "
         "(on a freshly loaded copy) on a seed-offset stride of pairs. E2: "
         "Hypothesis documents (with anchors) x random 1-4 segment paths "
@@ -229,6 +231,11 @@ def plan(tier, seed):
     for i in range(ng):
         shards.append({"kind": "grammar", "part": i, "parts": ng,
                        "offset": seed})
+    # raw path text: whatever the parser accepts must be evaluable
+    nr = 16
+    for i in range(nr):
+        shards.append({"kind": "rawtext", "part": i, "parts": nr,
+                       "maxlen": 4 if tier == "quick" else 5})
     nh, per = (16, 300) if tier == "quick" else (64, 3000)
     for i in range(nh):
         shards.append({"kind": "hyp", "seed": seed * 1000 + i,
@@ -267,6 +274,8 @@ def run_shard(shard):
                     run_entry(fresh, ptext, entry, res, text)
                     if container and any(c in ptext for c in "[(*"):
                         res.nt_count += 1
+    elif shard["kind"] == "rawtext":
+        _run_rawtext(shard, res, dl)
     elif shard["kind"] == "grammar":
         docs = grammar_docs()
         paths = grammar_paths()[shard["part"]::shard["parts"]]
@@ -297,6 +306,51 @@ def run_shard(shard):
     else:
         _run_hyp(shard, res, dl)
     return res
+
+
+RAW_FULL = "./[]()'\"\\&*!=~<>^$%,:+- ab1"     # complete up to length 3
+RAW_CORE = "./[]()'\"&*!=,ab1-"                   # complete up to maxlen
+RAW_DOCS = ["a:\n  b: 1\n  a:\n    - 1\n    - a: 2\nb:\n  - 1\n  - a\n",
+            "-\n  - 1\n  - a\n- a: 1\n  b: a\n"]
+
+
+def _run_rawtext(shard, res, dl):
+    """Every short string over the significant symbols that the parser
+    accepts is evaluated: a text that parses is a valid path, so only a
+    YAMLPathException may come out (ill-formed segment lists such as the
+    one from '(a)b' show up here)."""
+    from yamlpath import YAMLPath
+    from yamlpath.exceptions import YAMLPathException
+    docs = []
+    for text in RAW_DOCS:
+        doc, ok = gdocs.load(text)
+        docs.append((text, doc))
+    n = 0
+    for alphabet, upto in ((RAW_FULL, 3), (RAW_CORE, shard["maxlen"])):
+        for length in range(1, upto + 1):
+            if alphabet is RAW_CORE and length <= 3:
+                continue
+            for combo in itertools.product(alphabet, repeat=length):
+                n += 1
+                if n % shard["parts"] != shard["part"]:
+                    continue
+                ptext = "".join(combo)
+                try:
+                    YAMLPath(ptext).escaped
+                except YAMLPathException:
+                    res.label("rawtext:rejected-by-parser")
+                    continue
+                except Exception:
+                    res.label("rawtext:parser-crash(see C14)")
+                    continue
+                for text, doc in docs:
+                    run_entry(doc, ptext, "required", res, text)
+                res.nt_count += 1
+                if len(res.samples) < 1 and length >= 4 and n % 977 == 0:
+                    res.samples.append({"doc": RAW_DOCS[0], "path": ptext})
+        if dl.expired():
+            res.truncated = True
+            return
 
 
 def _run_hyp(shard, res, dl):
